@@ -3,7 +3,7 @@ CONSTANTS NA = 1
           NS = 1
           Ripemd = 0
           MaxVal = 1
-          MaxBal = 2
+          MaxBal = 1
           MaxNonce = 2
           MaxCode = 1
           MaxSnap = 2
